@@ -578,6 +578,27 @@ Proof.
   - destruct (lout s0); [apply Permutation_nil in HP; discriminate|reflexivity].
 Qed.
 
+(* the same with the termination token carrying any status (SKIPPED is what a loop whose instances all iterate zero
+   times delivers): same outputs; the final status follows the status *)
+Lemma loop_step_thm_st pol insts arr st :
+  Forall inst_ok insts -> NoDup (map ikey insts) -> Permutation arr (all_larr insts) ->
+  let s0 := loop_run pol arr in
+  let s := loop_run pol (arr ++ [LTerm st]) in
+  lfinal s0 = None /\ lout s = lout s0
+  /\ Permutation (lout s) (map (lexpected pol) insts)
+  /\ lfinal s = Some (get_status (reduce_statuses [Skipped; st]) (match insts with [] => true | _ => false end)).
+Proof.
+  intros Hok Hnd Hp s0 s.
+  destruct (loop_many pol insts arr Hok Hnd Hp) as ((Hr1 & Hr2 & Hr3) & HP & Hs & Ht). fold s0 in Hr1, Hr2, Hr3, HP, Hs, Ht.
+  assert (E : s = loop_step pol s0 (LTerm st)).
+  { subst s s0. unfold loop_run. rewrite fold_left_app. reflexivity. }
+  destruct (term_exits pol s0 st Hr2 Ht Hs) as [T1 T2]. rewrite <- E in T1, T2.
+  split; [exact Hr2|]. split; [exact T1|]. split; [rewrite T1; exact HP|].
+  rewrite T2, Hr3. f_equal. f_equal. destruct insts as [|i insts'].
+  - simpl in HP. apply Permutation_sym, Permutation_nil in HP. rewrite HP. reflexivity.
+  - destruct (lout s0); [apply Permutation_nil in HP; discriminate|reflexivity].
+Qed.
+
 (* ------------------------------------------------------------------ iteration counters of the loop combinator *)
 Lemma loop_retag_first im t :
   t <> [] -> aget (drop_last_s 1 (render t)) im = None ->
